@@ -1090,7 +1090,7 @@ for nodes in cfgs:
             n["processor"] = getattr(C, n["processor"][1:])
     try:
         p = build_inspection_payload(nodes)
-        out.append({"ids": G._payload_ids(p), "required": sorted(p["required_context_keys"])})
+        out.append({"ids": G._payload_ids(p), "required": list(p["required_context_keys"])})
     except Exception as ex:
         out.append({"error": "%s: %s" % (type(ex).__name__, str(ex)[:200])})
 print("IDS " + json.dumps(out))
@@ -1114,4 +1114,7 @@ def hashseed_configs():
                "derive": {"parameter_sweep": {"parameters": {"gamma": "2 * t", "alpha": "t"}, "variables": {"t": {"lo": 0.0, "hi": 1.0, "steps": 3}},
                                               "collection": "FloatDataCollection"}}}],
         [src, {"processor": many}],
+        # required keys that only differ in case / compare equal after case folding: the reported list has ONE order
+        [src, {"processor": "rename:Gain:a"}, {"processor": "rename:gain:b"}, {"processor": "rename:GAIN:c"}, {"processor": "rename:offset:d"},
+         {"processor": "rename:stra\u00dfe:e"}, {"processor": "rename:strasse:f"}, {"processor": "rename:STRASSE:g"}],
     ]
